@@ -3,7 +3,10 @@
    [fits m n d] = exactly scale n and fewer than 10^(m+n) in magnitude (Spec/Fits.v).
    The statement holds for EVERY buffer of the field's width (no validity assumed) outside two
    families that remain known findings: the pad nibble of an even-digit packed item and the
-   sign-position byte of a signed DISPLAY item (the width counts the S). *)
+   sign-position byte of a signed DISPLAY item (the width counts the S).
+   [C18_full_statement] enumerates packed and DISPLAY items.  BINARY items (COMP, COMP-4, BINARY, COMPUTATIONAL,
+   COMPUTATIONAL-4) are the companion file Props/C18c.v: [C18c_binary_full], refuted (7F FF in 9(4) COMP is 32767; the
+   implied scale is never applied), the exact positive theorems, and [C18c_full_statement] for all three families. *)
 From Coq Require Import ZArith NArith List Bool.
 Import ListNotations.
 Require Import SR.Base.Res SR.Base.Dec SR.Spec.Encode SR.Spec.Fits SR.Model.Estruct SR.Proofs.EstructP.
